@@ -358,6 +358,9 @@ func execC09(t *testing.T, sc c09Scenario) (out c09Outcome) {
 			mon := internal.NewSensorMonitor(s, configuration.CurrentConfig.TempSensorPollingRate)
 			go func() { _ = mon.Run(ctx) }()
 		}
+		// faults with first cycle 0 are already in force while the controller starts up (original
+		// PWM/mode reads, the first RPM polls before the first control cycle)
+		r.apply(sc.Faults, 0)
 		m := 0
 		loop := sim.LoopSpec{Kind: "direct", MaxChange: m}.Build()
 		ctl := controller.NewFanController(pers, r.fan, loop, tick)
@@ -541,7 +544,7 @@ func TestC09(t *testing.T) {
 	shard, shards := envInt("VERIF_SHARD", 0), envInt("VERIF_SHARDS", 1)
 	seed := envInt("VERIF_SEED", 1)
 	thorough := os.Getenv("VERIF_TIER") == "thorough"
-	singles := c09SingleFaults([]int{1, 2, 7, 24}, []int{1, 3, 0})
+	singles := c09SingleFaults([]int{0, 1, 2, 7, 24}, []int{1, 3, 0})
 	idx := 0
 	for fi, fan := range c09Fans {
 		for si, sens := range c09Sensors {
@@ -567,7 +570,7 @@ func TestC09(t *testing.T) {
 		}
 	}
 	// pairs of faults
-	pairBase := c09SingleFaults([]int{2, 7}, []int{1, 0})
+	pairBase := c09SingleFaults([]int{0, 2, 7}, []int{1, 0})
 	x := uint64(seed)
 	nPairs := 300
 	if thorough {
